@@ -118,6 +118,27 @@ Theorem C16_scaled_follows_newfb :
     (12, 8) = (Z.quot (sW st) 2, Z.quot (sH st) 2).
 Proof. exact scaled_follows_newfb. Qed.
 
+(* closed but not yet reaped clients (rfbCloseClient: sock = -1, record still in the client list).
+   FULL STATEMENT (refuted on the present library, a regression of the F12 fix 08f23bc): reaping
+   (rfbClientConnectionGone) never touches freed memory.  Witness f12c_ops: scaled client, closed,
+   rfbNewFramebuffer before the next rfbProcessEvents: its scaled screen is freed under it (the
+   re-pointing loop uses rfbGetClientIterator, which skips closed clients), the reaping dereferences it.
+   Replayed on the library by corpus/C16/f12c_closed_scaled_newfb_reap.script (ASan: heap-use-after-free
+   in rfbClientConnectionGone).  Proposed fix: notes/fix_C16_3.diff. *)
+Theorem C16_reap_after_newfb_refuted :
+  exists st, run (init_state 12 8 4) f12c_ops = Some st /\ Inv st /\ step st OpReap = None.
+Proof. exact reap_dangling_after_newfb. Qed.
+
+Theorem C16_reap_partial : forall st,
+  existsb cDangling (sClients st) = false -> exists st', step st OpReap = Some (st', []).
+Proof. exact reap_partial. Qed.
+
+Theorem C16_close_only_flag : forall st c st' out,
+  step st (OpClose c) = Some (st', out) ->
+  out = [] /\ sW st' = sW st /\ sH st' = sH st /\ sFB st' = sFB st /\ sExt st' = sExt st /\
+  length (sClients st') = length (sClients st).
+Proof. exact close_only_flag. Qed.
+
 (* ---------------------------------------------------------------- non-vacuity *)
 Definition nv16_ops : list op :=
   [OpSetCursor None; OpAddClient; OpAddClient; OpAddClient;
@@ -126,7 +147,8 @@ Definition nv16_ops : list op :=
    OpDoCopyRect 4 2 8 5 2 1; OpRequest 0 true 0 0 12 8; OpRequest 2 true 6 4 6 4;
    OpNewFB 6 4 2 7; OpTick 0; OpTick 2; OpRequest 0 true 0 0 6 4; OpTick 0;
    OpSetDesktopSize 1 20 10 1 1; OpRequest 1 true 0 0 6 4; OpTick 1;
-   OpSetDesktopSize 1 20 10 2 0; OpNewFB 20 10 4 9; OpRequest 1 true 0 0 20 10; OpTick 1; OpRequest 1 false 0 0 20 10; OpTick 1].
+   OpSetDesktopSize 1 20 10 2 0; OpClose 2; OpNewFB 20 10 4 9; OpReap; OpRequest 1 true 0 0 20 10; OpTick 1;
+   OpRequest 1 false 0 0 20 10; OpTick 1].
 
 Ltac run_ok_tac :=
   repeat (split; [first [exact I | solve [cbn; repeat split; lia] | solve [repeat constructor; cbn; lia]
